@@ -379,7 +379,17 @@ def run(F, R):
         R.count("bodies")
         sbi = first_switch(tr, lambda si: si.kind == "discr" and ("duration_since" in fmt_t(si.term)))
         if sbi is None:
-            R.inconclusive("C19-R4", "branches", "no match on wall_duration_since(UNIX_EPOCH)")
+            # no branch on the side of the epoch at all: is the wall time then moved in one fixed direction by the sub-microsecond
+            # remainder?  One direction is away from the epoch on one of the two sides, where the storage encoding truncates toward it.
+            ret0 = tr.trace_local(0)
+            wall0 = ret0[3][0] if ret0[0] == "agg" and ret0[2] and ret0[2].endswith("ComplexTime") and ret0[3] else None
+            one_dir = wall0 is not None and wall0[0] == "call" and wall0[1] in ("std::ops::Sub::sub", "std::ops::Add::add") and nrm(wall0[2][0], {1: "self"}) == "self.wall" \
+                and any(x[0] == "binop" and x[1] == "Rem" for x in walk(wall0[2][1])) and not any(x[0] == "phi" for x in walk(wall0))
+            if one_dir:
+                R.violation("C19-R5", "direction:unconditional", "the truncation helper computes self.wall.%s(remainder) on both sides of the epoch: on one side the wall time moves away from the epoch, "
+                            "while the storage encoding truncates toward it (the helper and a storage round trip disagree there)" % wall0[1].split("::")[-1], lib.loc(tr, 0))
+            else:
+                R.inconclusive("C19-R4", "branches", "no match on wall_duration_since(UNIX_EPOCH)")
         else:
             si = guards.switch_info(tr, sbi)
             for b in tr.succ[sbi]:
